@@ -709,6 +709,13 @@ func (s *Store) openCollection(
 			return nil, erro
 		}
 
+		// A store that was closed while the round was in flight has no
+		// footer to hand out anymore; a nil *Footer must not become the
+		// collection's lower level snapshot.
+		if footer, ok := ss.(*Footer); ok && footer == nil {
+			return nil, ErrClosed
+		}
+
 		return ss, erro
 	}
 
